@@ -296,7 +296,7 @@ func c09Run(c *fw.Ctx, b fw.Batch) {
 		// strings that consist of structural characters, as keys and values, in every small
 		// template, closed by every closer (a parser that keeps brackets and keys in one
 		// stack must not confuse the key "[" with an open array)
-		strs := []string{`"["`, `"{"`, `"]"`, `"}"`, `","`, `":"`, `"[["`, `"{\"a\":"`, `"\\"`, `"\""`, `"[a"`, `"a["`, `""`}
+		strs := []string{`"["`, `"{"`, `"]"`, `"}"`, `","`, `":"`, `"[["`, `"{\"a\":"`, `"\\"`, `"\""`, `"[a"`, `"a["`, `""`, `"data:;base64,QUJD\\"`, `"data:image/png;base64,QUJD\"`, `"data:;base64,\q"`, `"data:text/plain;base64,\\\\"`}
 		closers := []string{"]", "}", "", "]]", "}}", "]}", "}]", ",", "]\n", "} "}
 		tmpls := []string{`{S:1X`, `{"a":{S:nullX}`, `{"a":{S:nullX`, `[SX`, `[{S:1X,`, `[{S:1X]`, `{S:[1X}`, `{S:[1X`, `{"type":"Feature",S:0X`, `{S:{S:SX}`, `[S,SX`, `{"k":[S,{S:SX]}`}
 		for _, t := range tmpls {
